@@ -224,6 +224,7 @@ def run_case(case):
         cfg, init = _make_cfg(case, algo)
         pop, how = _build_population(case, algo, cfg, init)
         rec.extra["how"] = how
+        rec.hit("how:" + how)
     except CaseTimeout:
         raise
     except Exception as e:
